@@ -515,6 +515,10 @@ func (c *KindCase) Exec(t *eng.T) {
 		if op := px.Render(nil, "{{ v|"+f+" }}", pongo2.Context{"v": v}); op.Failed() || strings.ContainsAny(op.S, "<>\"'") || html.UnescapeString(op.S) != in {
 			t.Fail(f+":template-autoescape-on:"+c.Kind, "{{ v|%s }} under autoescape on with the %s %q renders %s, which does not unescape to the text", f, c.Kind, in, op)
 		}
+		// ... nor by the tags that print their arguments themselves
+		if op := px.Render(nil, "{% firstof v|"+f+" %}", pongo2.Context{"v": v}); in != "" && (op.Failed() || strings.ContainsAny(op.S, "<>\"'") || html.UnescapeString(op.S) != in) {
+			t.Fail(f+":firstof-autoescape-on:"+c.Kind, "{%% firstof v|%s %%} under autoescape on with the %s %q renders %s, which does not unescape to the text", f, c.Kind, in, op)
+		}
 		o := px.Render(nil, "{{ v|"+f+"|safe }}", pongo2.Context{"v": v})
 		if o.Failed() || strings.ContainsAny(o.S, "<>\"'") || html.UnescapeString(o.S) != in {
 			t.Fail(f+":kind-template:"+c.Kind, "{{ v|%s|safe }} with the %s %q renders %s", f, c.Kind, in, o)
